@@ -182,3 +182,11 @@ pub fn plant(b: &Bytes) -> (usize, u8) {
     }
     (i, x)
 }
+
+/// (front offset, capacity of the Vec an inline-Vec BytesMut will rebuild): read from the private
+/// fields through the bytes_mut overlay module
+pub fn mvec_fields(m: &BytesMut) -> (usize, usize) {
+    let (ptr, len, cap, data) = crate::bytes_mut::verif_m_wf::raw_parts(m);
+    assert!(data & 1 == 1, "not the inline-Vec form");
+    (data >> 5, cap + (data >> 5))
+}
